@@ -385,7 +385,9 @@ func TestC03(t *testing.T) {
 			// a percent sign spelled with an escape inside a string argument
 			`%a("100\x25 sure")%`, `%todo("\x25d of \x25s")%`, `%env("VERIF_UNSET", "50\u0025")%`,
 			// the documented message of todo is its first argument
-			`%todo("first", "second")%`, `%todo("a", "b", "c")%`}
+			`%todo("first", "second")%`, `%todo("a", "b", "c")%`,
+			// single chunks of 64 KiB and more
+			"v=%%;" + strings.Repeat("a", 70000) + ";%a%", strings.Repeat("blob ", 20000), "%a%" + strings.Repeat("é", 40000) + "%%" + strings.Repeat("z", 65536)}
 		for _, pos := range []string{"param", "service-arg", "decorator-arg"} {
 			c03Eval(t, c03Case{Position: pos, Candidates: extras}, &q)
 		}
